@@ -64,7 +64,7 @@ def o_objective(A, via):
         _precondition(A, snaps, case)
         fs = [A.objective(s, data, case, xv) for _, s in snaps]
         xi.check_monotone(fs, x2 + _mag(A, snaps), "objective/monotone", first_index=snaps[0][0])
-        return _labels(case, fs, len(fs) - 1 if via == "callback" else len(fs))
+        return _labels(case, fs, len(fs) - (1 if snaps[0][0] == 0 else 0))
     return oracle
 
 
@@ -166,6 +166,9 @@ def parafac_opts(group):
         if group == "linesearch":
             o["linesearch"] = True
             o["normalize"] = bool(order >= 3 and draw(st.booleans()))
+        if group == "fixed_modes":
+            o["fixed_modes"] = g.fixed_modes_of(draw, order)
+            o["normalize"] = draw(st.booleans())
         return o
     return f
 
@@ -174,6 +177,9 @@ def hals_opts(group):
     def f(draw, c):
         order = len(c["X"]["s"])
         o = {"normalize": group in ("normalize", "normalize_o2")}
+        if group == "fixed_modes":
+            o["fixed_modes"] = g.fixed_modes_of(draw, order)
+            o["normalize"] = draw(st.booleans())
         nn = draw(st.sampled_from(["all", "all", "subset", "none"]))
         if nn == "subset":
             o["nn_modes"] = sorted(draw(st.sets(st.integers(0, order - 1), min_size=1, max_size=order - 1)))
@@ -195,8 +201,11 @@ def subchecks(tier):
     # --- parafac (callback iterates, incl. the initial one) ------------------
     P = xi.Parafac()
     its = [3, 7, 8, 9, 12]
+    # fixed_modes: block-coordinate descent over the free modes only; user CP init whose columns are not unit-norm,
+    # with / without weights, with / without normalize_factors (which rescales the fixed factors as well)
     for grp, kw in {"plain": dict(orders=(2, 3, 4)), "normalize": dict(orders=(3, 4)), "normalize_o2": dict(orders=(2,)),
-                    "linesearch": dict(orders=(2, 3, 4))}.items():
+                    "linesearch": dict(orders=(2, 3, 4)),
+                    "fixed_modes": dict(orders=(2, 3, 4), inits=("user",), iweights=("none", "ones", "pos", "mixed"))}.items():
         if grp == "linesearch":
             # data scale class (||X|| both << 1 and >> 1) and runs long enough for the line-search iterations
             # 6, 8, ..., 22: a jump test that mixes absolute and relative errors only misbehaves for ||X|| < 1
@@ -210,8 +219,10 @@ def subchecks(tier):
     # --- non_negative_parafac_hals (prefix runs) -----------------------------
     H = xi.NNParafacHALS()
     nn_kinds = ("nonneg", "lowrank_nonneg", "normal", "int", "lowrank_noise")
-    for grp, kw in {"plain": dict(orders=(2, 3, 4)), "normalize": dict(orders=(3, 4)), "normalize_o2": dict(orders=(2,))}.items():
-        strat = g.cp_case(kinds=nn_kinds, opts=hals_opts(grp), iters=[3, 4, 6], tols=TOL, inits=("random", "svd", "user"), **kw)
+    for grp, kw in {"plain": dict(orders=(2, 3, 4)), "normalize": dict(orders=(3, 4)), "normalize_o2": dict(orders=(2,)),
+                    "fixed_modes": dict(orders=(2, 3, 4), inits=("user",), iweights=("none", "ones", "pos"))}.items():
+        kw.setdefault("inits", ("random", "svd", "user"))
+        strat = g.cp_case(kinds=nn_kinds, opts=hals_opts(grp), iters=[3, 4, 6], tols=TOL, **kw)
         add(f"non_negative_parafac_hals/{grp}/objective", strat, o_objective(H, "prefix"), quick=14, thorough=80)
         add(f"non_negative_parafac_hals/{grp}/reported", strat, o_reported(H, "prefix"), quick=14, thorough=80)
 
